@@ -27,7 +27,13 @@ func main() {
 	repo := os.Args[1]
 	want := map[string]string{}
 	localFiles := map[string]bool{}
+	// rangeidx:<file>: every `for k, v := range xs` over a slice in the file becomes `for k := 0; k < len(xs); k++ { v := xs[k]`
+	rangeFiles := map[string]bool{}
 	for _, s := range os.Args[2:] {
+		if strings.HasPrefix(s, "rangeidx:") {
+			rangeFiles[filepath.Join(repo, strings.TrimPrefix(s, "rangeidx:"))] = true
+			continue
+		}
 		if strings.HasPrefix(s, "locals:") {
 			localFiles[filepath.Join(repo, strings.TrimPrefix(s, "locals:"))] = true
 			continue
@@ -198,6 +204,78 @@ func main() {
 				edits[pos.Filename] = map[int]edit{}
 			}
 			edits[pos.Filename][pos.Offset] = edit{pos.Offset, id.Name, nn}
+		}
+		for _, f := range p.Syntax {
+			fname := fset.Position(f.Pos()).Filename
+			if !rangeFiles[fname] {
+				continue
+			}
+			src, err := os.ReadFile(fname)
+			if err != nil {
+				continue
+			}
+			ast.Inspect(f, func(n ast.Node) bool {
+				rs, ok := n.(*ast.RangeStmt)
+				if !ok || rs.Tok != token.DEFINE {
+					return true
+				}
+				if _, isSlice := p.TypesInfo.TypeOf(rs.X).Underlying().(*types.Slice); !isSlice {
+					return true
+				}
+				// the ranged expression is evaluated once: only plain variables and field chains the body does not assign
+				root := rs.X
+				for {
+					if se, isSel := root.(*ast.SelectorExpr); isSel {
+						root = se.X
+						continue
+					}
+					break
+				}
+				rid, isId := root.(*ast.Ident)
+				if !isId {
+					return true
+				}
+				bad := false
+				ast.Inspect(rs.Body, func(m ast.Node) bool {
+					switch x := m.(type) {
+					case *ast.FuncLit:
+						bad = true
+					case *ast.UnaryExpr:
+						if x.Op == token.AND {
+							bad = true
+						}
+					case *ast.AssignStmt:
+						for _, l := range x.Lhs {
+							ast.Inspect(l, func(q ast.Node) bool {
+								if id, ok := q.(*ast.Ident); ok && id.Name == rid.Name {
+									bad = true
+								}
+								return true
+							})
+						}
+					}
+					return true
+				})
+				if bad {
+					return true
+				}
+				text := func(e ast.Node) string { return string(src[fset.Position(e.Pos()).Offset:fset.Position(e.End()).Offset]) }
+				k := "zvI"
+				if id, ok := rs.Key.(*ast.Ident); ok && id.Name != "_" {
+					k = id.Name
+				}
+				xs := text(rs.X)
+				hdr := "for " + k + " := 0; " + k + " < len(" + xs + "); " + k + "++ {"
+				if id, ok := rs.Value.(*ast.Ident); ok && id.Name != "_" {
+					hdr += "\n" + id.Name + " := " + xs + "[" + k + "]"
+				}
+				a, b := fset.Position(rs.Pos()).Offset, fset.Position(rs.Body.Lbrace).Offset+1
+				if edits[fname] == nil {
+					edits[fname] = map[int]edit{}
+				}
+				edits[fname][a] = edit{a, string(src[a:b]), hdr}
+				return true
+			})
 		}
 		for id, o := range p.TypesInfo.Defs {
 			do(id, o)
